@@ -1,4 +1,5 @@
 import CashewsVerif.Lemmas.TxSample
+import CashewsVerif.Model.TxDefault
 /-
 C04 — inside a transaction, commands see the store plus their own earlier writes.
 Property theorems only; the models are `Model/Tx.lean` (the code) and `Spec/TxSpec.lean`
@@ -119,6 +120,31 @@ theorem failed_conditional_is_noop (K : List Key) (b : Mem) (ops : List Op) (k :
     | true => rw [r1 k' hr, r2 k' hr]
     | false => rw [u1 k' hr, u2 k' hr]
 
+/-- **Reads with a caller-supplied default.**  `get(k, default=d)` / `get_many(..., default=d)` hand the caller the
+model's answer with "not there" replaced by `d` (`Out.withDefault`, Model/TxDefault.lean).  For every choice of
+defaults — one per command, arbitrary values, in particular values that are stored under the key or were written
+earlier in the same transaction — what the callers receive inside the transaction is what they receive from direct
+execution.  (With default `d` a caller cannot tell "holds `d`" from "missing"; this is the statement about
+exactly what such a caller can see.  It follows from the simulation because the code only ever *returns* the
+default and decides presence with private sentinels — which is what the correspondence checks.) -/
+theorem reads_with_caller_default_simulate_direct (K : List Key) (b : Mem) (ops : List Op) (hs : TxSetup K b ops)
+    (hn : NoDeadlineCrossed b ops = true) (mode : TxMode) (id timeout : Nat) (ds : List (Option Val)) :
+    withDefaults ds (obsAll ops ((TxSt.begin_ b mode id timeout).run ops).2) =
+      withDefaults ds (obsAll ops (b.run ops).2) := by
+  rw [tx_step_simulates_direct K b ops hs hn mode id timeout]
+
+/-- **The default never masks a write.**  After any sequence of commands, a `get` with ANY default `d` inside the
+transaction returns the value direct execution left under the key whenever there is one — also when that value
+is `d` itself (`set(k, None); get(k)`, `set(c, 0); get(c, default=0)`) — and `d` exactly when direct execution
+left the key missing.  It never returns an older value of the store. -/
+theorem get_with_default_sees_own_writes (K : List Key) (b : Mem) (ops : List Op) (hs : TxSetup K b ops)
+    (hn : NoDeadlineCrossed b ops = true) (mode : TxMode) (id timeout : Nat)
+    (k : Key) (hk : k ∈ K) (hu : reserved k = false) (d : Val) :
+    withDefault1 d (((TxSt.begin_ b mode id timeout).run ops).1.get k).2 =
+      some ((((b.run ops).1.rawGet k).2).getD d) := by
+  rw [no_write_disappears K b ops hs hn mode id timeout k hk hu]
+  rfl
+
 /-! ### Non-vacuity (sample transaction: `Lemmas/TxSample.lean`) -/
 
 /-- the hypotheses of the theorems are satisfiable by a non-trivial transaction -/
@@ -133,5 +159,15 @@ example : ((TxSt.begin_ sampleStore .locked 1 80).run sampleOps).2 =
 /-- a failed conditional exists among the sample commands (premise of `failed_conditional_is_noop`) -/
 example : (((TxSt.begin_ sampleStore .fast 1 80).run (sampleOps.take 4)).1.step (.set 0 (.tok 7) none .xx)).2
     = .bool false := by decide
+
+/-- the witness of the caller-default class: the store holds `0 ↦ 5`; the transaction overwrites it with `None` and reads
+it back with the default default (`None`), then resets key 2 to `0` and reads it with `default=0`, then reads both
+with `get_many(default=None)`: the callers get `None`, `0`, `(None, 0)` — never the old `5` / `7` -/
+example : ∀ mode ∈ [TxMode.fast, .locked, .serializable],
+    withDefaults [none, some .nil, none, some (.int 0), some .nil]
+      ((TxSt.begin_ { now := 3, cap := 1000, store := [(0, ⟨.int 5, none⟩), (2, ⟨.int 7, none⟩)] } mode 1 80).run
+        [.set 0 .nil none .always, .get 0, .set 2 (.int 0) none .xx, .get 2, .getMany [0, 2, 4]]).2 =
+    [.bool true, .val (some .nil), .bool true, .val (some (.int 0)), .vals [some .nil, some (.int 0), some .nil]] := by
+  decide
 
 end CashewsVerif.Props.C04
